@@ -200,6 +200,53 @@ pub fn vf_string_push(s: &mut String, c: char)
 pub fn vf_string_push_str(s: &mut String, t: &String)
     ensures final(s)@ == old(s)@ + t@
 { unimplemented!() }
+/// every char is printable ASCII 0x20..=0x7e (what gen_ascii_char yields and every string mutator preserves)
+pub open spec fn printable(s: Seq<char>) -> bool {
+    forall|i: int| 0 <= i < s.len() ==> ' ' <= #[trigger] s[i] && s[i] <= '~'
+}
+/// `(0..len).map(|_| source.gen_ascii_char()).collect::<String>()`
+#[verifier::external_body]
+pub fn vf_gen_ascii_string(source: &mut GenerationSource, len: usize) -> (r: String)
+    ensures r@.len() == len, printable(r@)
+{ unimplemented!() }
+/// `s.into_bytes()`: one byte per char for ASCII text
+#[verifier::external_body]
+pub fn vf_string_into_bytes(s: String) -> (r: Vec<u8>)
+    ensures printable(s@) ==> r@.len() == s@.len()
+{ unimplemented!() }
+/// the STRING escaping chain `s.replace('\\', ..).replace('\'', ..).replace('\n', ..).replace('\r', ..).replace('\t', ..)`
+#[verifier::external_body]
+pub fn vf_escape_py(s: &String) -> (r: String)
+    ensures printable(s@) ==> printable(r@)
+{ unimplemented!() }
+/// `format!("'{}'\n", escaped).into_bytes()`-able text: a quoted, escaped Python string literal line
+#[verifier::external_body]
+pub fn vf_fmt_quoted_nl(escaped: &String) -> (r: VfText)
+    ensures r.bytes().len() >= 3, printable(escaped@) ==> text_ok(ArgClass::StringNl, r.bytes())
+{ unimplemented!() }
+/// `s.replace('\\', "\\\\")`
+#[verifier::external_body]
+pub fn vf_escape_backslash(s: &String) -> (r: String)
+    ensures printable(s@) ==> printable(r@)
+{ unimplemented!() }
+/// `format!("{}\n", escaped)`: a line that contains no other newline when the text is printable
+#[verifier::external_body]
+pub fn vf_fmt_line_nl(escaped: &String) -> (r: VfText)
+    ensures r.bytes().len() >= 1, printable(escaped@) ==> text_ok(ArgClass::UnicodeNl, r.bytes())
+{ unimplemented!() }
+/// `(0..len).map(|_| source.gen_u8()).collect::<Vec<u8>>()`
+#[verifier::external_body]
+pub fn vf_gen_u8_vec(source: &mut GenerationSource, len: usize) -> (r: Vec<u8>)
+    ensures r@.len() == len
+{ unimplemented!() }
+#[verifier::external_body]
+pub fn vf_i32_to_le_bytes(x: i32) -> (r: [u8; 4])
+    ensures vstd::bytes::spec_u32_from_le_bytes(seq![r@[0], r@[1], r@[2], r@[3]]) == x as u32
+{ unimplemented!() }
+#[verifier::external_body]
+pub fn vf_u64_to_le_bytes(x: u64) -> (r: [u8; 8])
+    ensures vstd::bytes::spec_u64_from_le_bytes(seq![r@[0], r@[1], r@[2], r@[3], r@[4], r@[5], r@[6], r@[7]]) == x
+{ unimplemented!() }
 /// `v[..n].to_vec()`
 #[verifier::external_body]
 pub fn vf_prefix_to_vec(v: &Vec<u8>, n: usize) -> (r: Vec<u8>)
@@ -406,6 +453,36 @@ pub fn vf_pickle_opcodes(version: u8) -> (r: Option<&'static [OpcodeKind]>)
         version <= 5 ==> r is Some,
         r is Some ==> (forall|i: int| 0 <= i < r.unwrap()@.len() ==> ref_proto(#[trigger] r.unwrap()@[i]) <= version),
         r is Some ==> r.unwrap()@.contains(OpcodeKind::None),
+        r is Some ==> r.unwrap()@.contains(OpcodeKind::Int),
+{ unimplemented!() }
+pub open spec fn vf_int_like(op: OpcodeKind) -> bool {
+    op == OpcodeKind::Int || op == OpcodeKind::Long || op == OpcodeKind::Long1 || op == OpcodeKind::Long4
+    || op == OpcodeKind::BinInt || op == OpcodeKind::BinInt1 || op == OpcodeKind::BinInt2
+}
+/// `valid.iter().cloned().filter(|k| matches!(k, Int | Long | Long1 | Long4 | BinInt | BinInt1 | BinInt2)).collect()`
+#[verifier::external_body]
+pub fn vf_filter_int_like(valid: &[OpcodeKind]) -> (r: Vec<OpcodeKind>)
+    ensures
+        forall|i: int| 0 <= i < r@.len() ==> vf_int_like(#[trigger] r@[i]) && valid@.contains(r@[i]),
+        valid@.contains(OpcodeKind::Int) ==> r@.len() > 0,
+{ unimplemented!() }
+/// format!("{int}\n") / format!("{int}L\n")
+#[verifier::external_body]
+pub fn vf_fmt_i32_nl(x: i32) -> (r: VfText)
+    ensures r.bytes().len() >= 2, text_ok(ArgClass::DecNl, r.bytes())
+{ unimplemented!() }
+#[verifier::external_body]
+pub fn vf_fmt_i32_l_nl(x: i32) -> (r: VfText)
+    ensures r.bytes().len() >= 3, text_ok(ArgClass::DecNlLong, r.bytes())
+{ unimplemented!() }
+/// `arr.to_vec()` / `arr[..2].to_vec()`
+#[verifier::external_body]
+pub fn vf_arr4_to_vec(a: [u8; 4]) -> (r: Vec<u8>)
+    ensures r@ == a@
+{ unimplemented!() }
+#[verifier::external_body]
+pub fn vf_first2_to_vec(a: &[u8; 4]) -> (r: Vec<u8>)
+    ensures r@ == a@.take(2)
 { unimplemented!() }
 
 pub assume_specification<T> [<[T]>::reverse] (s: &mut [T])
